@@ -20,15 +20,15 @@ func init() {
 	})
 	prop(&PropertySpec{
 		ID: "C20", Level: "other",
-		Rules: []string{"R20.1", "R20.2", "R20.3", "R11.5", "R11.6", "R11.7", "R11.4", "R01.9"},
+		Rules: []string{"R20.1", "R20.2", "R20.3", "R20.4", "R11.5", "R11.6", "R11.7", "R11.4", "R01.9"},
 		Explanation: "R20.1 the configured limit flows unchanged into bufio.Scanner.Buffer on both entry points (ReadConfig.MaxEventSize under cfg != nil && > 0; Connection.Buffer's arguments are stored and forwarded by the parser factory; Parser.Buffer forwards both to the scanner created in New and used by Next, which is created with the split function); " +
-			"R20.2 the split function returns a token only after the scan stopped at a line break followed by a second line break, or when atEOF holds: the early `request more data` return covers advance==len(data) && !atEOF, so an oversized event makes bufio report ErrTooLong instead of yielding a truncated token; R20.3 the token is a sub-slice of the input starting at the skipped-blank-lines offset and ending at advance; R11.5-R11.7/R11.4 the scanner's error is what Read/Connect report; R01.9 the field parser consumes exactly one line per step, so a partially received line is never interpreted.",
+			"R20.2 the split function returns a token only after the scan stopped at a line break followed by a second line break, or when atEOF holds: the early `request more data` return covers advance==len(data) && !atEOF, so an oversized event makes bufio report ErrTooLong instead of yielding a truncated token; R20.4 more data is requested ((0, nil, nil)) only for empty input or after the scan reached the end of the buffered data without finding the end of an event (so a complete event sitting in the buffer is always delivered, and events below the limit never hit ErrTooLong); R20.3 the token is a sub-slice of the input starting at the skipped-blank-lines offset and ending at advance; R11.5-R11.7/R11.4 the scanner's error is what Read/Connect report; R01.9 the field parser consumes exactly one line per step, so a partially received line is never interpreted.",
 		NotDecided: "panic freedom of the index arithmetic; the exact number of bytes bufio reads before ErrTooLong; 'intact below the limit'.",
 	})
 	prop(&PropertySpec{
 		ID: "C05", Level: "other",
-		Rules: []string{"R05.1", "R16.4", "R16.5", "R10.1", "R10.2", "R01.7", "R04.3", "R04.2", "R11.4", "R11.5"},
-		Explanation: "The property is a composition; static analysis contributes (a) the four mechanisms named in its anchors as link rules: R16.4/R16.5 Upgrade reads the Last-Event-Id header into the subscription, R10.1/R10.2 the client stores the dispatched ID and sends it on retry, R01.7 an event cut before its blank line is discarded unless the body ended cleanly, R04.3/R04.2 Joe replays then registers atomically and live/replayed copies carry the same ID, R11.4/R11.5 a dropped connection is always reported so that it is retried; " +
+		Rules: []string{"R05.1", "R16.4", "R16.5", "R16.1", "R10.1", "R10.2", "R01.7", "R04.3", "R04.2", "R11.4", "R11.5", "R17.1"},
+		Explanation: "The property is a composition; static analysis contributes (a) the four mechanisms named in its anchors as link rules: R16.4/R16.5 Upgrade reads the Last-Event-Id header into the subscription, R10.1/R10.2 the client stores the dispatched ID and sends it on retry, R01.7 an event cut before its blank line is discarded unless the body ended cleanly, R04.3/R04.2 Joe replays then registers atomically and live/replayed copies carry the same ID, R11.4/R11.5 a dropped connection is always reported so that it is retried, R16.1 the session typestate (a response always starts with the event-stream header, so the reconnecting client's validator accepts it), R17.1 a dead old session that fails during fan-out does not stop delivery to the new one; " +
 			"and (b) R05.1 wire-contract agreement: the header key the client writes canonicalises to the constant the server indexes with (itself canonical, as it is used as a raw map key), the server's Content-Type value equals what DefaultValidator compares with, both sides share the field-name constants.",
 		NotDecided: "the end-to-end sequence equality over cut sequences and timings; server survival beyond C06's rules; replay start-index arithmetic beyond R08.5.",
 	})
@@ -42,6 +42,7 @@ func init() {
 	register(&Rule{ID: "R20.1", Title: "buffer limit wiring into bufio.Scanner.Buffer", Floor: 4, Run: r20_1})
 	register(&Rule{ID: "R20.2", Title: "split function emits a token only for a complete event or at EOF", Floor: 2, Run: r20_2})
 	register(&Rule{ID: "R20.3", Title: "token is data[start:advance]; advance is returned", Floor: 1, Run: r20_3})
+	register(&Rule{ID: "R20.4", Title: "more data is requested only when the scan reached the end of the buffer", Floor: 2, Run: r20_4})
 }
 
 func isResOf(v ssa.Value, s ssa.Value) bool {
@@ -1155,5 +1156,89 @@ func r20_3(c *Ctx) {
 			_ = k
 			c.bad(fnLabel(fn)+":token-error#"+itoa(i), P.ipos(ret), "a token is returned together with an error")
 		}
+	}
+}
+
+func r20_4(c *Ctx) {
+	P := c.P
+	fn := P.Fn("parser.splitFunc")
+	if fn == nil || len(fn.Params) != 2 {
+		c.anchor("parser.splitFunc")
+		return
+	}
+	data, atEOF := fn.Params[0], fn.Params[1]
+	n := 0
+	for i, ret := range returnsOf(fn) {
+		if len(ret.Results) != 3 || !isNilConst(ret.Results[1]) {
+			continue
+		}
+		k, isK := constInt(ret.Results[0])
+		if !isK || k != 0 {
+			continue
+		}
+		n++
+		name := fnLabel(fn) + ":need-more-data#" + itoa(i)
+		// justified by len(data) == 0 ...
+		empty := false
+		for _, ifi := range ifsIn(fn) {
+			op, kk, succ, ok := cmpConstEdge(ifi, func(v ssa.Value) bool { return isLenOf(v, data) })
+			if ok && op == token.EQL && kk == 0 && edgeDominates(ifi.Block(), succ, ret.Block()) {
+				empty = true
+			}
+		}
+		// ... or by (scanned position == len(data)) && !atEOF, the position being loop-carried (the scan ran)
+		scanned := false
+		for _, ifi := range ifsIn(fn) {
+			cnd := decodeIf(ifi)
+			if cnd.Y == nil || cnd.Op != token.EQL {
+				continue
+			}
+			var pos ssa.Value
+			switch {
+			case isLenOf(cnd.Y, data):
+				pos = cnd.X
+			case isLenOf(cnd.X, data):
+				pos = cnd.Y
+			default:
+				continue
+			}
+			// pos derives from the scan: it is (or adds to) a loop-carried phi advanced by NewlineIndex results
+			derives := false
+			seen := map[ssa.Value]bool{}
+			var walk func(v ssa.Value)
+			walk = func(v ssa.Value) {
+				if seen[v] {
+					return
+				}
+				seen[v] = true
+				switch x := v.(type) {
+				case *ssa.Phi:
+					for _, e := range x.Edges {
+						walk(e)
+					}
+				case *ssa.BinOp:
+					walk(x.X)
+					walk(x.Y)
+				case *ssa.Extract:
+					if call, ok := x.Tuple.(*ssa.Call); ok {
+						if _, ok := isModCall(call, "parser.NewlineIndex"); ok {
+							derives = true
+						}
+					}
+				}
+			}
+			walk(pos)
+			if !derives || !edgeDominates(ifi.Block(), cnd.succWhen(true), ret.Block()) {
+				continue
+			}
+			if guardedByBool(fn, ret.Block(), func(v ssa.Value) bool { return v == ssa.Value(atEOF) }, false) {
+				scanned = true
+			}
+		}
+		c.check(empty || scanned, name, P.ipos(ret), "more data is requested only for empty input, or when the scan reached the end of the buffer and the input is not at EOF",
+			"more data is requested on a path where the scan did not establish that the buffer ends inside an event: a complete event already buffered is withheld, the buffer fills and bufio reports ErrTooLong for events below the limit")
+	}
+	if n == 0 {
+		c.bad(fnLabel(fn)+":need-more-data", P.pos(fn.Pos()), "splitFunc never requests more data")
 	}
 }
